@@ -27,6 +27,8 @@ type genCase struct {
 	// Nested: every action also parses the same input once more from inside the action
 	// (PushContex/ParserInit/Parser/PopContex on the global parser, a fresh context with -o)
 	Nested bool `json:"nested,omitempty"`
+	// Lazy: the lexer does not clear the value cell and accumulates into it (see gen.Decorated.Lazy)
+	Lazy bool `json:"lazy,omitempty"`
 }
 
 func genDepth(w *Worker) int {
@@ -85,6 +87,9 @@ type obs struct {
 	runs  map[string][]*rt.Result
 	dumps map[string][][]int
 	items map[string]*gen.Item
+	// prefix sums of the token numbers of one input (lazy lexer)
+	lazyIn   string
+	lazySums []int
 }
 
 // fuel: lexer calls plus actions one parse may make before the driver calls it a loop (the default
@@ -233,7 +238,7 @@ func (o *obs) evalDerivation(in string, reds []rt.Red, accepted bool) (val, stri
 				v.S = rt.TokS(in[shifted], shifted)
 			}
 			// the lexer always fills both fields; only the tagged one is observable
-			v = val{N: rt.TokN(in[shifted], shifted), S: rt.TokS(in[shifted], shifted)}
+			v = o.tokVal(in, shifted)
 			vals = append(vals, v)
 			shifted++
 		}
@@ -283,6 +288,23 @@ func (o *obs) symNames(s []int) string {
 	return "[" + strings.Join(p, " ") + "]"
 }
 
+// tokVal is the value the harness lexer stores for the token at pos.
+func (o *obs) tokVal(in string, pos int) val {
+	if !o.d.Lazy {
+		return val{N: rt.TokN(in[pos], pos), S: rt.TokS(in[pos], pos)}
+	}
+	// the lazy lexer adds the token's number to what the previous call left in the cell
+	if o.lazyIn != in || len(o.lazySums) != len(in) {
+		o.lazyIn, o.lazySums = in, make([]int, len(in))
+		sum := 0
+		for p := 0; p < len(in); p++ {
+			sum = (sum + rt.TokN(in[p], p)) % rt.Mod
+			o.lazySums[p] = sum
+		}
+	}
+	return val{N: o.lazySums[pos], S: rt.TokS(in[pos], pos)}
+}
+
 // predict runs the model on a complete input.
 func (o *obs) predict(m *lrm.Machine, in string) rt.Result {
 	toks := o.toks(in)
@@ -304,7 +326,7 @@ func (o *obs) predict(m *lrm.Machine, in string) rt.Result {
 		for _, ev := range sr.Events {
 			switch ev.Kind {
 			case 's':
-				vals = append(vals, val{N: rt.TokN(in[pos], pos), S: rt.TokS(in[pos], pos)})
+				vals = append(vals, o.tokVal(in, pos))
 			case 'r':
 				res.Reds = append(res.Reds, rt.Red{Rule: ev.Rule, Fetches: res.Fetches})
 				n := len(o.g.Rules[ev.Rule].R)
@@ -381,8 +403,21 @@ func genPhase(w *Worker, id string) {
 			}
 		}
 		corpus = append(corpus, bare...)
+		// a lexer that keeps the value cell between its calls (yylval style), numbers observable
+		var lazy []*genCase
+		for i, c := range corpus {
+			fam := strings.HasPrefix(c.Origin, "family:")
+			if c.Tags == nil && c.Shape == gen.UseAll && !c.Renumber && (fam || i%9 == 0) {
+				alln := gen.Tags{}
+				for _, s := range append(c.Spec.Terminals(), c.Spec.Nonterminals()...) {
+					alln[s] = "n"
+				}
+				lazy = append(lazy, &genCase{Origin: c.Origin + " [lexer keeps the value cell]", Spec: c.Spec, Tags: alln, Shape: gen.UseAll, Lazy: true})
+			}
+		}
+		corpus = append(corpus, lazy...)
 	}
-	if id == "C07" || id == "C17" || id == "C08" || id == "C01" {
+	if id == "C07" || id == "C17" || id == "C08" || id == "C01" || id == "C06" {
 		// the family grammars once more with a nested parse inside every action: what the outer
 		// parse computes, reduces and traces must not change
 		var nested []*genCase
@@ -436,6 +471,7 @@ func genBatch(w *Worker, id string, cases []*genCase, name string) {
 		tags, shape := genTags(id, c)
 		d := gen.DecorateOpt(c.Spec, tags, shape, c.Renumber)
 		d.Nested = c.Nested
+		d.Lazy = c.Lazy
 		o := &obs{c: c, g: g, d: d, runs: map[string][]*rt.Result{}, dumps: map[string][][]int{}, items: map[string]*gen.Item{}}
 		// the model comes from an in-process build of the same text
 		res := ygo.Build(d.Source(gen.Go, "model"), ygo.Options{Fuel: buildFuel})
@@ -655,7 +691,7 @@ func genJudge(w *Worker, id string, o *obs, variants []string) {
 		infos[i].firstBad = fb
 	}
 	dense := lrm.Dense(o.vw.V)
-	packed := lrm.Packed(o.vw.V)
+	packed := packedIfIntact(w, o.vw.V)
 	nontrivial := false
 	var refM *lrm.Machine
 	if id == "C06" && !o.tbl.ConflictFree && o.tbl.AllJudged() {
